@@ -72,6 +72,11 @@ def planted_array_cases(rng, n_random, thorough):
                     cases.append(([], gen_prog.nested(arr_type(dims), k), arr_val(bad), {}))
         cases.append(([], arr_type(dims), arr_val(good), {}))
         cases.append(([], arr_type(dims), arr_val(good + [1]), {}))
+        # the WHOLE shape fits and only the dtype (or the array class) is wrong: the names of the annotation stay unbound
+        for prior in ([], [("x y", [9, 8])], [("*#v", [1, 6])]):
+            cases.append((prior, arr_type(dims, cat="Int"), arr_val(good, dtype="float32"), {}))
+            cases.append((prior, arr_type(dims, cat="Float"), arr_val(good, dtype="int32"), {}))
+            cases.append((prior, arr_type(dims, cls="Duck2", cat="Float"), arr_val(good), {}))
     # raising targets: something is bound first, then the walk raises
     for pre in ("a", "a b", "*v a", "a *v"):
         cases.append(([], arr_type(pre + " q+1"), arr_val([2, 3, 4, 5][: len(pre.split()) + 1]), {}))
